@@ -4,6 +4,7 @@ import (
 	"fmt"
 	"math"
 	"strings"
+	"time"
 
 	"verif/internal/drive"
 	"verif/internal/gen"
@@ -108,6 +109,7 @@ func (c04) Plan(tier string, seed int64) []mon.Workload {
 		{Name: "computed-keys", N: int64(len(c04KeyStmts) * len(c04KeyWraps)), Exhaustive: true},
 		{Name: "decoded-twice", N: int64(len(c04JSONTexts) * len(c04JSONUses)), Exhaustive: true},
 		{Name: "tuple-assign", N: int64(len(c04TupleSetups) * len(c04TupleStmts)), Exhaustive: true},
+		{Name: "string-in", N: int64(len(c04InCases)), Exhaustive: true},
 	}
 }
 
@@ -366,6 +368,9 @@ func (k c04) Describe(c *mon.Ctx, workload string, i int64) any {
 	if workload == "tuple-assign" {
 		return map[string]any{"source": c04TupleText(i), "interpreter": "v2"}
 	}
+	if workload == "string-in" {
+		return map[string]any{"source": c04InCases[i], "interpreter": "v1 and v2"}
+	}
 	cs := k.build(c, workload, i)
 	return map[string]any{"source": gt.Print(gt.ParenthesizeStmts(cs.Stmts), nil)}
 }
@@ -396,6 +401,30 @@ var c04TupleStmts = []string{
 	"c, c = a[0], c\n",
 	"b, c = c, len(b)\n",
 }
+
+// string-in (exhaustive): `needle in haystack` on strings compares BYTES:
+// every byte slice of a few short multi-byte strings (also slices that cut a
+// character apart, and the replacement character itself) as needle, against
+// the whole string and every one of its byte slices.
+var c04InCases = func() []string {
+	var out []string
+	for _, s := range []string{"é", "aé", "世b", "éé", "a�"} {
+		n := len(s)
+		for a := 0; a < n; a++ {
+			for b := a + 1; b <= n; b++ {
+				var hs []string
+				hs = append(hs, "nd in s")
+				for c := 0; c < n; c++ {
+					for d := c + 1; d <= n; d++ {
+						hs = append(hs, fmt.Sprintf("nd in s[%d:%d]", c, d))
+					}
+				}
+				out = append(out, fmt.Sprintf("s = \"%s\"\nnd = s[%d:%d]\np(%s)\np(\"\\ufffd\" in nd, nd in \"\\ufffd\", \"\" in nd, nd in \"\", nd == \"\\ufffd\")\n", s, a, b, strings.Join(hs, ", ")))
+			}
+		}
+	}
+	return out
+}()
 
 func c04TupleText(i int64) string {
 	return c04TupleSetups[int(i)%len(c04TupleSetups)] + c04TupleStmts[int(i)/len(c04TupleSetups)] + "p(a, b, m, n, c)\n"
@@ -445,6 +474,16 @@ func runV2Text(c *mon.Ctx, tag, text string) {
 func (k c04) Run(c *mon.Ctx, workload string, i int64) {
 	if workload == "tuple-assign" {
 		runV2Text(c, "tuple-assign", c04TupleText(i))
+		return
+	}
+	if workload == "string-in" {
+		runV2Text(c, "string-in", c04InCases[i])
+		st, err := gt.FromStmts(drive.Parse("string-in", c04InCases[i]).Stmts)
+		if err != nil {
+			panic(err)
+		}
+		st = gt.CloneStmts(st)
+		runV1Compare(c, progCase{Stmts: st, Src: gt.Print(st, nil), Points: []*ref.Point{ref.NewPoint("m", nil, map[string]any{"f1": int64(1)}, time.Unix(1700000000, 0))}}, "c04.p")
 		return
 	}
 	cs := k.build(c, workload, i)
